@@ -320,24 +320,36 @@ class HistGen:
         return self.ops[: self.max_ops + 8]
 
 
-def gen_history(rng, u, tier):
+def gen_history(rng, u, tier, lo=4, hi=None):
     nvars = rng.randint(4, 8)
     max_ops = 12 if tier == "quick" else 60
-    n_ops = rng.randint(4, max_ops)
+    n_ops = rng.randint(min(lo, max_ops), hi or max_ops)
     g = HistGen(rng, u, nvars, max_ops)
     ops = g.run(n_ops)[:max_ops]
     return Con("Hist", u.term(), nvars, ops)
 
 
 def gen_cases(rng, tier):
+    from ..lib.term import to_text
+
     cases = []
-    n_uni = 10 if tier == "quick" else 120
-    per = 24 if tier == "quick" else 60
+    n_uni = 10 if tier == "quick" else 60
+    per = 24 if tier == "quick" else 40
     for _ in range(n_uni):
         u = gen_universe(rng, n_roots=rng.choice([1, 2, 2]), max_levels=2, rich=rng.random() < 0.6)
         uj = universe_to_json(u)
-        for _ in range(per):
-            t = gen_history(rng, u, tier)
+        for j in range(per):
+            if tier == "quick":
+                t = gen_history(rng, u, tier)
+            elif j == 0:
+                # thorough: one short history per class family stays small enough for the in-kernel re-evaluation
+                # (harness/main.py samples inputs below 6000 characters; the observations of long histories are
+                # megabytes of text, which coqc cannot hold as string literals)
+                t = gen_history(rng, u, tier, lo=4, hi=8)
+            else:
+                t = gen_history(rng, u, tier, lo=40, hi=60)
+                if len(to_text(t)) < 6000:
+                    continue
             cases.append({"kind": "history", "input": t, "digest_size": rng.choice([1, 1, 2, 8]), "opts": {"universe": uj}})
     return cases
 
